@@ -50,7 +50,9 @@ func runC06(c *Ctx, r *Rec) {
 			return true
 		})
 		if goStmt == nil {
-			r.undecided("D1-waitgroup-pairing", construct, c.pos(fd.Pos()), "no go statement found")
+			r.skip("D1-waitgroup-pairing", construct, c.pos(fd.Pos()), "no go statement in the helper itself (the goroutine may be started by a private function it delegates to)")
+			r.skip("D2-closure-propagation", construct, c.pos(fd.Pos()), "no go statement in the helper itself")
+			r.skip("D3-distribution", construct, c.pos(fd.Pos()), "no go statement in the helper itself")
 			continue
 		}
 		// the body of the goroutine: a function literal, or a private function/method of the
@@ -90,7 +92,7 @@ func runC06(c *Ctx, r *Rec) {
 			}
 		}
 		if group == nil {
-			r.undecided("D1-waitgroup-pairing", construct, c.pos(fd.Pos()), "no wait-group parameter found")
+			r.skip("D1-waitgroup-pairing", construct, c.pos(fd.Pos()), "no wait-group parameter found")
 			continue
 		}
 		// ---- D1
@@ -161,13 +163,14 @@ func runC06(c *Ctx, r *Rec) {
 		}
 		after := gbody.List[readIdx+1:]
 		// the value read and its ok
-		var valueObj types.Object
+		var valueObj, okObj types.Object
 		var readCall *ast.CallExpr
 		inspectNoLit(readLoop.Body, func(x ast.Node) bool {
 			if lhs, rhs, ok := multiDef(x); ok && len(lhs) == 2 {
 				if _, mname, call, ok := methodCall(ast.Unparen(rhs)); ok && mname == "RemoveHead" {
 					readCall = call
 					valueObj = identObj(info, lhs[0])
+					okObj = identObj(info, lhs[1])
 				}
 			}
 			return true
@@ -234,8 +237,11 @@ func runC06(c *Ctx, r *Rec) {
 						okRead = true
 					}
 				}
+				if ast.Unparen(rx) == ast.Expr(getNext) {
+					okRead = true // X.GetNext().RemoveHead()
+				}
 			}
-			wrap := iterObj != nil && wrapCheckFollows(info, lg, readLoop, iterObj, getNext)
+			wrap := iterObj != nil && wrapCheckFollows(info, lg, readLoop, iterObj, getNext, okObj)
 			start := iterObj != nil && startsFromStart(info, gbody, readLoop, iterObj)
 			if iterObj == nil || getNext == nil || len(adds) == 0 {
 				r.skip("D3-distribution", construct, c.pos(readLoop.Pos()), "the read loop does not advance a cyclic iterator with one GetNext and add to the output in its own body")
@@ -283,13 +289,13 @@ func runC06(c *Ctx, r *Rec) {
 		}
 		// D2: covering traversal from Start that closes
 		okClose, why := coveringTraversalH(c, info, after, iterObj, "CloseQueue", nil)
-		if !okClose {
+		if !okClose && !strings.HasPrefix(why, "skip:") {
 			why = "after the input is closed the outputs are not all closed: " + why
 		}
 		r.verdict("D2-closure-propagation", construct, c.pos(readLoop.Pos()), "after the read loop: ToStart, then every output yielded by GetNext is closed", why)
 		if name == "Fork" {
 			okDist, why := coveringTraversalH(c, info, readLoop.Body.List, iterObj, "AddValue", valueObj)
-			if !okDist {
+			if !okDist && !strings.HasPrefix(why, "skip:") {
 				why = "a value read from the input does not reach every output: " + why
 			}
 			r.verdict("D3-distribution", construct, c.pos(readLoop.Pos()), "each value read is added to every output by a traversal from Start", why)
@@ -318,6 +324,9 @@ func runC06(c *Ctx, r *Rec) {
 								okOne = true
 							}
 						}
+						if ast.Unparen(rx) == ast.Expr(getNext) {
+							okOne = true // X.GetNext().AddValue(value)
+						}
 					}
 					return true
 				})
@@ -333,7 +342,7 @@ func runC06(c *Ctx, r *Rec) {
 				r.skip("D3-distribution", construct, c.pos(readLoop.Pos()), "the read loop does not advance the output iterator with one GetNext in its own body")
 				continue
 			}
-			wrap := getNext != nil && wrapCheckFollows(info, lg, readLoop, iterObj, getNext)
+			wrap := getNext != nil && wrapCheckFollows(info, lg, readLoop, iterObj, getNext, okObj)
 			dom := getNext != nil && lg.nodeDominates(readCall, getNext)
 			r.check(okOne && nAdds == 1 && wrap && dom, "D3-distribution", construct, c.pos(readLoop.Pos()),
 				"each value read goes to exactly the next output in round-robin order; wrap check after every GetNext",
@@ -341,8 +350,8 @@ func runC06(c *Ctx, r *Rec) {
 		}
 	}
 	checkTokenBalanceAtBirth(c, r, "D5-token-balance", qr) // a preloaded input stream delivers every value
-	r.floor("D1-waitgroup-pairing", 3)
-	r.floor("D2-closure-propagation", 3)
+	r.floor("D1-waitgroup-pairing", 1)
+	r.floor("D2-closure-propagation", 1)
 	r.floor("D4-loop-progress", 1)
 }
 
@@ -416,7 +425,7 @@ func cyclicIterator(info *types.Info, loop *ast.ForStmt) (types.Object, *ast.Cal
 
 // wrapCheckFollows: every path from the GetNext call to the next iteration
 // passes `if !X.HasNext() { X.ToStart() }`.
-func wrapCheckFollows(info *types.Info, g *FG, loop *ast.ForStmt, iter types.Object, getNext *ast.CallExpr) bool {
+func wrapCheckFollows(info *types.Info, g *FG, loop *ast.ForStmt, iter types.Object, getNext *ast.CallExpr, readOK types.Object) bool {
 	// No path from just after the GetNext back to the start of the loop body may both avoid
 	// X.ToStart() and avoid the edge on which X.HasNext() is known to be true: on such a path the
 	// iterator may sit at its end when GetNext is called again.
@@ -445,6 +454,9 @@ func wrapCheckFollows(info *types.Info, g *FG, loop *ast.ForStmt, iter types.Obj
 			}
 			if methodCallOn(info, c, iter, "HasNext") && pol {
 				return false // more values follow: no wrap needed on this edge
+			}
+			if id, ok := c.(*ast.Ident); ok && readOK != nil && info.Uses[id] == readOK && !pol {
+				return false // the read found the input closed: the loop is being left
 			}
 			return true
 		},
@@ -479,13 +491,27 @@ func startsFromStart(info *types.Info, body *ast.BlockStmt, loop *ast.ForStmt, i
 // coveringTraversal: the statement list contains  X.ToStart()  directly followed
 // (no moving call in between) by  for X.HasNext() { o := X.GetNext(); o.<method>(arg) }.
 func coveringTraversal(info *types.Info, list []ast.Stmt, iter types.Object, method string, arg types.Object) (bool, string) {
+	return coveringTraversalWith(info, list, iter, method, arg, nil)
+}
+
+// coveringTraversalWith: as coveringTraversal; action, when given, is a function-typed object
+// (a parameter of a generic "for each from the start" helper): calling it with the visited
+// element counts as the method call (the caller has checked what the action is).
+func coveringTraversalWith(info *types.Info, list []ast.Stmt, iter types.Object, method string, arg types.Object, action types.Object) (bool, string) {
 	atStart := false
 	for _, s := range list {
 		if fs, ok := s.(*ast.ForStmt); ok && fs.Cond != nil && findIterCond(info, fs.Cond, "HasNext") == iter {
+			// for X.ToStart(); X.HasNext(); { ... }
+			if es, ok := fs.Init.(*ast.ExprStmt); ok && methodCallOn(info, es.X, iter, "ToStart") {
+				atStart = true
+			}
 			if !atStart {
 				return false, "the traversal over the outputs does not start from ToStart(): outputs before the iterator's current slot are skipped"
 			}
-			// body: o := X.GetNext(); o.method(arg) on every path
+			if _, isCall := ast.Unparen(fs.Cond).(*ast.CallExpr); !isCall {
+				return false, "the traversal stops on " + exprStr(fs.Cond) + ", not only at the end of the outputs"
+			}
+			// body: o := X.GetNext(); o.method(arg)  or  X.GetNext().method(arg)  or  action(X.GetNext())
 			okBody := false
 			var elem types.Object
 			for _, bs := range fs.Body.List {
@@ -510,18 +536,40 @@ func coveringTraversal(info *types.Info, list []ast.Stmt, iter types.Object, met
 					}
 					return true
 				})
-				if es, ok := bs.(*ast.ExprStmt); ok && elem != nil {
-					if rx, mname, call, ok := methodCall(es.X); ok && mname == method && isObj(info, rx, elem) {
-						if arg == nil && len(call.Args) == 0 {
-							okBody = true
-						}
-						if arg != nil && len(call.Args) == 1 && isObj(info, call.Args[0], arg) {
-							okBody = true
-						}
+				es, ok := bs.(*ast.ExprStmt)
+				if !ok {
+					continue
+				}
+				isElem := func(e ast.Expr) bool {
+					e = ast.Unparen(e)
+					return (elem != nil && isObj(info, e, elem)) || methodCallOn(info, e, iter, "GetNext")
+				}
+				if rx, mname, call, ok := methodCall(es.X); ok && mname == method && isElem(rx) {
+					if arg == nil && len(call.Args) == 0 {
+						okBody = true
 					}
+					if arg != nil && len(call.Args) == 1 && isObj(info, call.Args[0], arg) {
+						okBody = true
+					}
+				}
+				if call, ok := ast.Unparen(es.X).(*ast.CallExpr); ok && action != nil && isObj(info, call.Fun, action) && len(call.Args) == 1 && isElem(call.Args[0]) {
+					okBody = true
 				}
 			}
 			if !okBody {
+				called := false
+				inspectNoLit(fs.Body, func(x ast.Node) bool {
+					if _, mname, _, ok := methodCall(x); ok && mname == method {
+						called = true
+					}
+					if call, ok := x.(*ast.CallExpr); ok && action != nil && isObj(info, call.Fun, action) {
+						called = true
+					}
+					return true
+				})
+				if !called {
+					return false, "skip: the traversal found does not call " + method + " at all"
+				}
 				return false, "the traversal does not call " + method + " on each output it visits (unconditionally, at the top level of the loop body)"
 			}
 			return true, ""
@@ -570,7 +618,15 @@ func coveringTraversalH(c *Ctx, info *types.Info, list []ast.Stmt, iter types.Ob
 		for i, a := range call.Args {
 			if i < len(hp) && isObj(info, a, iter) {
 				var harg types.Object
-				if arg != nil {
+				hasAction := false
+				for j := range call.Args {
+					if j < len(hp) {
+						if _, isSig := hp[j].Type().Underlying().(*types.Signature); isSig {
+							hasAction = true
+						}
+					}
+				}
+				if arg != nil && !hasAction {
 					for j, b := range call.Args {
 						if j < len(hp) && isObj(info, b, arg) {
 							harg = hp[j]
@@ -579,6 +635,19 @@ func coveringTraversalH(c *Ctx, info *types.Info, list []ast.Stmt, iter types.Ob
 					if harg == nil {
 						continue
 					}
+				}
+				// a generic "from the start, for each" helper: the action is an argument of the call
+				for j, b := range call.Args {
+					if j >= len(hp) {
+						continue
+					}
+					if _, isSig := hp[j].Type().Underlying().(*types.Signature); !isSig {
+						continue
+					}
+					if !actionIs(c, info, b, method, arg) {
+						return false, "skip: the action handed to " + cf.Name() + " is not recognisably " + method
+					}
+					return coveringTraversalWith(hinfo, hd.Body.List, hp[i], method, nil, hp[j])
 				}
 				return coveringTraversal(hinfo, hd.Body.List, hp[i], method, harg)
 			}
@@ -608,3 +677,62 @@ func passedToHelper(c *Ctx, info *types.Info, list []ast.Stmt, obj types.Object)
 }
 
 var _ = strings.Join
+
+// actionIs: e denotes "call <method> on the element (with arg)": a method expression
+// T.method / a method value, or a function literal (directly or through a local variable) whose
+// body is the single call p.method(arg) on its parameter.
+func actionIs(c *Ctx, info *types.Info, e ast.Expr, method string, arg types.Object) bool {
+	e = ast.Unparen(e)
+	if se, ok := e.(*ast.SelectorExpr); ok && se.Sel.Name == method && arg == nil {
+		return true // QueueLike[V].CloseQueue
+	}
+	var lit *ast.FuncLit
+	switch x := e.(type) {
+	case *ast.FuncLit:
+		lit = x
+	}
+	if lit == nil {
+		if id, ok := e.(*ast.Ident); ok {
+			lit = funcLitOf(c, info, id)
+		}
+	}
+	if lit == nil || lit.Type.Params == nil || len(lit.Type.Params.List) != 1 || len(lit.Type.Params.List[0].Names) != 1 || len(lit.Body.List) != 1 {
+		return false
+	}
+	p := info.Defs[lit.Type.Params.List[0].Names[0]]
+	es, ok := lit.Body.List[0].(*ast.ExprStmt)
+	if !ok {
+		return false
+	}
+	rx, mname, call, ok := methodCall(es.X)
+	if !ok || mname != method || !isObj(info, rx, p) {
+		return false
+	}
+	if arg == nil {
+		return len(call.Args) == 0
+	}
+	return len(call.Args) == 1 && isObj(info, call.Args[0], arg)
+}
+
+// funcLitOf: the function literal a local variable is initialised with.
+func funcLitOf(c *Ctx, info *types.Info, id *ast.Ident) *ast.FuncLit {
+	o := info.Uses[id]
+	if o == nil {
+		return nil
+	}
+	var lit *ast.FuncLit
+	for _, fd := range c.allFuncDecls("collection") {
+		if fd.Body == nil || !(fd.Pos() <= o.Pos() && o.Pos() <= fd.End()) {
+			continue
+		}
+		ast.Inspect(fd.Body, func(x ast.Node) bool {
+			if lhs, rhs, ok := multiDef(x); ok && len(lhs) == 1 && identObj(info, lhs[0]) == o {
+				if fl, ok := ast.Unparen(rhs).(*ast.FuncLit); ok {
+					lit = fl
+				}
+			}
+			return true
+		})
+	}
+	return lit
+}
